@@ -71,14 +71,17 @@ Other(x, kind) ==
        [] kind = "dim" -> Hist(other, IotaB(other, 1, 0, 0), RI(0), NoneR)
 HasOther(x, kind) == kind = "shorter" => Len(x.edges[Len(x.edges)]) > 2
 
-Init == a \in HistChoices /\ a0 = a /\ n = 0 /\ h = <<>>
+TolMeshes == {<<<<0, 2>>>>, <<<<-4, 1, 3, 20>>>>, <<<<0, 2, 6>>, <<-3, -1, 4>>>>, <<<<1, 2>>, <<0, 1, 4>>, <<2, 4, 8, 16>>>>}
+TolHists == {Hist(E, IotaB(E, 1, 0, 0), RI(0), NoneR) : E \in TolMeshes}
+Init == a \in HistChoices \cup TolHists /\ a0 = a /\ n = 0 /\ h = <<>>
 
 NoHist == Hist(<<>>, <<>>, NoneR, NoneR)
 \* fresh: the stored scale (if any) is the integral, i.e. the documented precondition of rescaling holds
 Fresh(x) == IsNone(x.cache) \/ x.cache = Integral(x.bins, x.edges)
-Log(op, s, w, incl, rc, kind, ok, exc, val, b, r) ==
+LogT(op, s, w, incl, rc, kind, ok, exc, val, b, r, tol, pert) ==
   h' = Append(h, [op |-> op, s |-> s, w |-> w, incl |-> incl, rc |-> rc, kind |-> kind, fresh |-> Fresh(a),
-                  ok |-> ok, exc |-> exc, val |-> val, a |-> a', b |-> b, r |-> r])
+                  ok |-> ok, exc |-> exc, val |-> val, a |-> a', b |-> b, r |-> r, tol |-> tol, pert |-> pert])
+Log(op, s, w, incl, rc, kind, ok, exc, val, b, r) == LogT(op, s, w, incl, rc, kind, ok, exc, val, b, r, NoTol, NoPert)
 
 Op == n < MaxOps /\ n' = n + 1 /\ a0' = a0
 \* hist.scale() / hist.scale(recompute=True)
@@ -105,7 +108,30 @@ Add == Op /\ \E kind \in OtherKinds, w \in AddWeights :
      /\ a' = a
      /\ Log("add", NoneR, w, FALSE, FALSE, kind, r.ok, r.exc, NoneR, b, r.h)
 
-Next == GetScale \/ Scale \/ SetNevents \/ Add
+\* hist.add(other, w, edges_abs_tol=.., edges_rel_tol=..) / hist.add(other, w): the other histogram has
+\* the same edges but for one edge moved by a large relative amount or by a multiple of the tolerance.
+\* Closeness does not depend on the contents: one histogram per mesh (TolHists) is enough.
+TolKinds == {NoTol, [kind |-> "rel", rel |-> Eps, abs |-> RI(0)], [kind |-> "abs", rel |-> RI(0), abs |-> <<1, 4>>],
+             [kind |-> "both", rel |-> Eps, abs |-> <<1, 4>>]}
+Positions(e) == {1, Len(e)} \cup (IF Len(e) > 2 THEN {2} ELSE {})
+Perts(x, tol) ==
+  {NoPert} \cup
+  {[axis |-> d, pos |-> p, kind |-> "grid", amt |-> am] :
+     d \in 1..Len(x.edges), p \in 1..4, am \in {<<1, 8>>, <<1, 4>>, <<1, 2>>}} \cup
+  {[axis |-> d, pos |-> p, kind |-> "rel", amt |-> t] :
+     d \in 1..Len(x.edges), p \in 1..4,
+     t \in (IF tol.kind = "default" THEN {<<1, 2>>, <<2, 1>>, <<1, 1024>>}
+            ELSE IF tol.kind = "abs" THEN {} ELSE {<<1, 2>>, <<1, 1>>, <<2, 1>>})}
+PertOK(x, pert) == pert.kind = "none" \/ pert.pos \in Positions(x.edges[pert.axis])
+IsTolHist(x) == x.oor = RI(0) /\ x.bins = IotaB(x.edges, 1, 0, 0)
+AddTol == Op /\ IsTolHist(a) /\ \E tol \in TolKinds : \E pert \in Perts(a, tol) :
+  /\ PertOK(a, pert)
+  /\ LET b == Hist(a.edges, ScaleB(a.bins, Len(a.edges), RI(3)), RI(1), NoneR)
+         r == AddTolOp(a, b, RI(2), pert, tol) IN
+     /\ a' = a
+     /\ LogT("add_tol", NoneR, 2, FALSE, FALSE, "", r.ok, r.exc, NoneR, b, r.h, tol, pert)
+
+Next == GetScale \/ Scale \/ SetNevents \/ Add \/ AddTol
 Spec == Init /\ [][Next]_vars
 
 (***************************************************************************)
@@ -153,6 +179,24 @@ AddPure == [][IsOp("add") => a' = a]_vars
 AddNegZero == [][(IsOp("add") /\ L.kind = "neg" /\ L.w = 1) =>
                   /\ \A c \in Cells(a.edges) : RIsZero(Get(L.r.bins, c))
                   /\ RIsZero(L.r.oor)]_vars
+
+\* add with tolerances: a result exactly when the perturbed edge is within the documented tolerance
+\* (equal edges always, an edge moved by a large relative amount never under the default tolerances),
+\* the result is the cell-wise sum on the edges of self, the operands stay
+PX == a.edges[L.pert.axis][L.pert.pos]
+AddTolDoc == [][IsOp("add_tol") =>
+                 /\ a' = a
+                 /\ L.pert.kind = "none" => L.ok
+                 /\ (L.tol.kind = "default" /\ L.pert.kind = "grid") => ~L.ok
+                 /\ (L.tol.kind # "default" /\ L.pert.kind # "none") =>
+                      (L.ok <=> DocClose(RI(PX), PertY(PX, L.pert, L.tol), L.tol.rel, L.tol.abs))
+                 /\ ~L.ok => L.exc = "LenaValueError"
+                 /\ L.ok => /\ L.r.edges = a.edges
+                            /\ \A c \in Cells(a.edges) : Get(L.r.bins, c) = RAdd(Get(a.bins, c), RMul(RI(L.w), Get(L.b.bins, c)))
+                            /\ L.r.oor = RAdd(a.oor, RMul(RI(L.w), L.b.oor))]_vars
+\* the rule used for the default relative tolerance is the exact formula for the explicit eps
+RuleAgrees == [][(IsOp("add_tol") /\ L.tol.kind = "rel" /\ L.pert.kind # "none") =>
+                  (L.ok <=> CloseRule(PX, L.pert))]_vars
 
 Emitted == (n = MaxOps) => PrintT(ToJson([start |-> a0, ops |-> h]))
 =============================================================================
